@@ -37,7 +37,7 @@ pub enum StaticCase {
     Composite(crate::checks::composite::CompositeCase),
 }
 
-fn composite_strategy(tier: Tier) -> BoxedStrategy<crate::checks::composite::CompositeCase> {
+pub fn composite_strategy(tier: Tier) -> BoxedStrategy<crate::checks::composite::CompositeCase> {
     use proptest::collection::vec;
     let kmax = tier.pick(30usize, 45usize);
     let comp = prop_oneof![
